@@ -577,7 +577,12 @@ fn gen_case(seed: u64, faults_on: bool, max_players: usize, small: bool) -> Case
         allow_zero_players: true,
         hash_seeds: true,
     };
-    let scen = gen_scenario(&mut rng, &params);
+    let mut scen = gen_scenario(&mut rng, &params);
+    // now and then a seat holds nothing: the enumeration, scoped or not, is empty
+    if !scen.players.is_empty() && rng.chance(1, 25) {
+        let k = rng.usize_below(scen.players.len());
+        scen.players[k].entries.clear();
+    }
     let built = BuiltScen {
         scen: scen.clone(),
         ranges: Arc::new(scen.build_ranges()),
